@@ -4,6 +4,7 @@
 import SV.Persist.Proofs
 import SV.GenProofs.Persist
 import SV.FactsProofs.Batch
+import SV.Persist.ShardedProofs
 namespace SV.Props.C08
 open SV SV.Persist
 
@@ -40,5 +41,11 @@ theorem batch_operations_have_the_models_effects :
     Facts.batchPutEffects = Facts.modelPutEffects ∧ Facts.batchDeleteEffects = Facts.modelDeleteEffects ∧
     Facts.batchResetEffects = Facts.modelResetEffects :=
   ⟨Facts.batch_put_effects, Facts.batch_delete_effects, Facts.batch_reset_effects⟩
+
+/-- the SHARDED persister over batching persisters is one plain map over whole histories — any shard count ≥ 2, any batch
+    size, timer flushes of all shards and close/reopen cycles anywhere -/
+theorem sharded_history_refines_map (n maxBatch : Nat) (hn : 2 ≤ n) (hm : 1 ≤ maxBatch) (ops : List Op) (k : Bytes) :
+    (ops.foldl Sharded.step (Sharded.init n maxBatch)).get Variant.current k = (ops.foldl specStep (fun _ => none)) k :=
+  sharded_run_refines_map n maxBatch hn hm ops k
 
 end SV.Props.C08
